@@ -406,6 +406,69 @@ def boundary_pairs(case):
     return sec_pairs, fig_pairs, fig_last
 
 
+SHARE_KINDS = ("refname", "refreuse", "image", "template", "heading", "url", "chaptitle")
+
+
+def all_items(blocks):
+    """every inline item of a block sequence (cells, nested blocks, figures, gallery entries)"""
+    out = []
+    for b in blocks:
+        k = b["b"]
+        if k in ("para", "head"):
+            out += b["xs"]
+        elif k == "sec":
+            out += b["xs"] + b["body"]
+        elif k == "list":
+            for ln in b["ls"]:
+                out += ln["xs"]
+        elif k == "pre":
+            for ln in b["ls"]:
+                out += ln
+        elif k == "table":
+            out += b["cap"]
+            for row in b["rows"]:
+                for c in row:
+                    out += c["xs"] + all_items(c["inner"])
+        elif k == "fig":
+            out.append(b["x"])
+        elif k == "gallery":
+            out += [{"t": "gi", "i": g["i"]} for g in b["gs"]]
+        elif k == "tpl":
+            out.append({"t": "tc", "tp": b["tp"]})
+    return out
+
+
+def sharing(case):
+    """{sharing kind: number of articles of the book that have the identifier in common}"""
+    per = []
+    for art in case["arts"]:
+        items = all_items(art)
+        heads = [tuple(x["w"] for x in b["xs"]) for b in art if b["b"] == "head" and all(x["t"] == "sw" for x in b["xs"])]
+        defined, reuse = set(), False
+        for x in items:
+            if x["t"] == "refn":
+                defined.add(x["nm"])
+            elif x["t"] == "refu" and x["nm"] in defined:
+                reuse = True
+        per.append({"refname": defined, "refreuse": {1} if reuse else set(),
+                    "image": {x["i"] for x in items if x["t"] in ("img", "fig", "gi")},
+                    "template": {x["tp"] for x in items if x["t"] == "tc" or (x["t"] == "fig" and x.get("tp"))},
+                    "heading": set(heads), "url": {1} if any(x["t"] == "le" for x in items) else set()})
+    out = {}
+    for kind in SHARE_KINDS[:-1]:
+        ids = set().union(*[p[kind] for p in per]) if per else set()
+        n = max([sum(1 for p in per if i in p[kind]) for i in ids] or [0])
+        if kind == "refreuse":
+            n = 1 if n else 0
+            if n:
+                out[kind] = n
+        elif n >= 2:
+            out[kind] = n
+    if any(case["chap"]):
+        out["chaptitle"] = sum(1 for c in case["chap"] if c)
+    return out
+
+
 RUN_KINDS = ("fig", "gallery", "table")
 FOLLOWERS = ("end", "head", "table", "gallery", "pre", "para", "list")
 
@@ -499,16 +562,19 @@ def run(ctx):
         plans = [("one_full", dict(maxarts=1, maxblocks=1, palette="full", chapters=False)),
                  ("one_pairs", dict(maxarts=1, maxblocks=1, palette="pairs", chapters=False)),
                  ("one_runs3", dict(maxarts=1, maxblocks=1, palette="runs3", chapters=False)),
+                 ("two_share", dict(maxarts=2, maxblocks=1, palette="share", chapters=False)),
                  ("two_mini", dict(maxarts=2, maxblocks=1, palette="mini", chapters=True))]
-        nsim, maxblocks, maxrun = 112, 4, 3
+        nsim, maxblocks, maxrun, share_arts = 96, 4, 3, 2
     else:
         plans = [("one_full", dict(maxarts=1, maxblocks=1, palette="full", chapters=False)),
                  ("one_pairsall", dict(maxarts=1, maxblocks=1, palette="pairsall", chapters=False)),
                  ("one_runs5all", dict(maxarts=1, maxblocks=1, palette="runs5all", chapters=False)),
                  ("one_core2", dict(maxarts=1, maxblocks=2, minblocks=2, palette="core", chapters=False)),
                  ("two_core", dict(maxarts=2, maxblocks=1, palette="core", chapters=True)),
+                 ("three_share", dict(maxarts=3, maxblocks=1, palette="share", chapters=False)),
+                 ("four_sharesame", dict(maxarts=4, maxblocks=1, palette="sharesame", chapters=True)),
                  ("three_mini", dict(maxarts=3, maxblocks=1, palette="mini", chapters=True))]
-        nsim, maxblocks, maxrun = 3200, 5, 5
+        nsim, maxblocks, maxrun, share_arts = 3200, 5, 5, 4
     lap("RenderPipeline model-checked")
     cases, states, trans = enumerate_cases(ctx, plans)
     n_exh = len(cases)
@@ -572,6 +638,18 @@ def run(ctx):
     if want_runs - runcov:
         ctx.machinery("runs of consecutive blocks never enumerated in the exhaustive part (kind, length, follower): %s"
                       % sorted(want_runs - runcov))
+    # ---- coverage of book-level sharing: every kind, for every number of sharing articles up to
+    # share_arts, must be in the exhaustive part
+    sharecov, sharecov_all = {}, {}
+    for c in caselist:
+        for kind, n in sharing(c).items():
+            sharecov_all.setdefault(kind, set()).add(n)
+            if c.get("origin", "").startswith("bfs:"):
+                sharecov.setdefault(kind, set()).add(n)
+    lacking = [(k, n) for k in SHARE_KINDS[:-1] if k != "refreuse" for n in range(2, share_arts + 1) if n not in sharecov.get(k, ())]
+    lacking += [(k, 1) for k in ("refreuse", "chaptitle") if not sharecov.get(k)]
+    if lacking:
+        ctx.machinery("book-level sharing never enumerated in the exhaustive part (kind, articles): %s" % lacking)
     # ---- evidence
     feats = [features(c) for c in caselist]
     count = lambda k: sum(1 for f in feats if f[k])                         # noqa: E731
@@ -589,6 +667,9 @@ def run(ctx):
         section_boundary_pairs_exhaustive=len(base_exh & want), section_boundary_pairs_possible=len(want),
         section_boundary_pairs_all=len(base_all & want), section_boundary_pairs_refined=sorted("%s|%s" % p for p in refined),
         adjacent_figure_pairs=sorted("%s|%s" % p for p in figpairs), collections_ending_with_figure=figlast,
+        sharing_exhaustive={k: sorted(v) for k, v in sorted(sharecov.items())},
+        sharing_all={k: sorted(v) for k, v in sorted(sharecov_all.items())},
+        collections_with_sharing=sum(1 for c in caselist if any(k != "chaptitle" for k in sharing(c))),
         run_length_follower_exhaustive={k: sorted("%d|%s" % (n, f) for kk, n, f in runcov if kk == k) for k in RUN_KINDS},
         run_length_follower_required=len(want_runs), run_length_follower_covered=len(want_runs & runcov),
         run_max_length_exhaustive=maxrun, run_length_follower_all=len(runcov_all),
